@@ -36,6 +36,9 @@ def handle : List String → String
     else if !e && gotErr != "nil" then s!"diff ReadFrom returned '{gotErr}' without a Close before its last chunk"
     else if field n "n=" != toString nn then s!"diff ReadFrom count: model {nn}, implementation {n}"
     else "ok"
+  | ["pw", mode, cause, nils] =>
+    if field nils "nil=" != "0" then s!"specviol Channel.Write on a closed channel ({mode}, closed with {cause}) returned nil for {field nils "nil="} of 4 messages that an outbound handler kept instead of passing them to the head"
+    else "ok"
   | _ => "bad-op"
 
 /-- `C18 rf …` lines: ReadFrom on a non-blocking queued channel with a stalled sender -/
